@@ -225,10 +225,14 @@ class RegressionRhythm(Rhythm):
                 else:
                     self._preferred_inertia = new_inertia
                     self.logger.warning(f"Setting 'self._preferred_inertia' to '{value}'")
-            except ValueError:
+            except (ValueError, TypeError):
                 log_warning(f"{value} is not an number")
         if key == "peal_speed":
-            new_peal_speed = int(value)
+            try:
+                new_peal_speed = int(value)
+            except (ValueError, TypeError):
+                log_warning(f"{value} is not an integer")
+                return
             if new_peal_speed <= 0:
                 log_warning(f"{new_peal_speed} is not positive")
             else:
